@@ -160,6 +160,10 @@ CliCorpus(z) == {
   \* a run-time error that quotes a long value made of two-byte characters (the message is the library's, whatever its length)
   [tree |-> << <<Say(S("go")), SListen(0, X), SMut(0, "cast", X, ENone, ENone), Say(X)>> >>, inp |-> <<"x" \o RepStrG("~", 60) \o NL>>],
   [tree |-> << <<Say(S("go")), SListen(0, X), Say(B("minus", X, N(1)))>> >>, inp |-> <<RepStrG("~", 70) \o NL>>],
+  \* a run-time error that quotes an array with six keyed entries (its text is the same in every process)
+  [tree |-> << <<SAssign(0, Idx(X, S("a")), "none", <<N(1)>>), SAssign(0, Idx(X, S("b")), "none", <<N(2)>>), SAssign(0, Idx(X, S("c")), "none", <<N(3)>>),
+                 SAssign(0, Idx(X, S("d")), "none", <<N(4)>>), SAssign(0, Idx(X, Lit(Null)), "none", <<N(5)>>), SAssign(0, Idx(X, Lit(Bool(TRUE))), "none", <<N(6)>>),
+                 Say(S("filled")), SMut(0, "cast", X, ENone, ENone), Say(S("unreachable"))>> >>, inp |-> <<>>],
   \* a call chain 700 activations deep (the library runs it; so must the tool)
   [tree |-> << <<SFunc(0, "f", <<"p">>, <<SIf(0, B("eq", Var("p"), N(0)), <<SReturn(0, S("bottom"))>>, FALSE, <<>>),
                                          Put(B("minus", Var("p"), N(1)), "z"), SReturn(0, Call("f", <<Z>>))>>)>>,
